@@ -703,7 +703,8 @@ func TestVerifC43(t *testing.T) {
 					}
 				}
 				// mutation seeds: cheapest KDF; key #0 with passphrases "a" and ""; thorough adds key #2 and the 64-byte passphrase
-				if x.di == 0 && ((x.ki == 0 && x.pi <= 1) || (th && x.ki == 2 && x.pi == 3)) {
+				// and one seed with the most expensive KDF set of the box (parameter-aliasing edits need non-minimal originals)
+				if (x.di == 0 && ((x.ki == 0 && x.pi <= 1) || (th && x.ki == 2 && x.pi == 3))) || (th && x.di == len(kdfs)-1 && x.ki == 0 && x.pi == 0) {
 					blk, _ := pem.Decode(out)
 					seedMu.Lock()
 					seeds = append(seeds, &c43Seed{label: label, curve: x.curve, key: key, pass: pass, pemB: out, body: blk.Bytes, banner: blk.Type, tuple: tup})
